@@ -329,6 +329,10 @@ func (c *Ctx) Inconclusive(why string) {
 // It returns true when the deviation is a (new) violation.
 func (c *Ctx) Report(d *Deviation, replay any) bool {
 	r := c.report(d, replay)
+	if r {
+		// a violation is on record even if the process dies before Finish (time budget, fatal error)
+		c.writeStats(true)
+	}
 	c.mu.Lock()
 	abort := c.hangs >= envInt("VERIF_MAXHANGS", 3) && c.Replay == ""
 	c.mu.Unlock()
@@ -484,6 +488,24 @@ func (c *Ctx) Rapid(name string, checks int, prop Prop) {
 
 // Finish writes the shard statistics and fails the Go test on violations.
 func (c *Ctx) Finish() {
+	c.writeStats(false)
+	c.mu.Lock()
+	defer c.mu.Unlock()
+	for _, v := range c.violations {
+		c.T.Logf("violation: %s (%s) replay=%s", v.Sig, v.Detail, v.Replay)
+	}
+	for _, s := range c.inconcl {
+		c.T.Logf("inconclusive: %s", s)
+	}
+	if len(c.violations) > 0 {
+		c.T.Fail()
+	}
+}
+
+// writeStats writes the shard's statistics file (partial: a checkpoint taken when a violation is
+// recorded; the driver treats a shard that died after a checkpoint as what it was: a violation
+// found, exploration unfinished).
+func (c *Ctx) writeStats(partial bool) {
 	c.mu.Lock()
 	defer c.mu.Unlock()
 	lab := map[string]int64{}
@@ -510,6 +532,7 @@ func (c *Ctx) Finish() {
 		"known_hits": c.knownHits, "known_distinct_sigs": ks, "known_live": live,
 		"excluded_by_known": c.excluded, "violations": c.violations, "inconclusive": c.inconcl,
 		"extra": c.extra, "sub_checks": c.subChecks, "wall_s": time.Since(c.start).Seconds(),
+		"partial": partial,
 	}
 	if c.exhaustive != nil {
 		out["exhaustive"] = *c.exhaustive
@@ -522,18 +545,9 @@ func (c *Ctx) Finish() {
 				err = os.Rename(tmp, filepath.Join(c.OutDir, fmt.Sprintf("shard-%d.json", c.Shard)))
 			}
 		}
-		if err != nil {
+		if err != nil && !partial {
 			c.T.Logf("cannot write shard stats: %v", err)
 		}
-	}
-	for _, v := range c.violations {
-		c.T.Logf("violation: %s (%s) replay=%s", v.Sig, v.Detail, v.Replay)
-	}
-	for _, s := range c.inconcl {
-		c.T.Logf("inconclusive: %s", s)
-	}
-	if len(c.violations) > 0 {
-		c.T.Fail()
 	}
 }
 
